@@ -55,6 +55,7 @@ func genC10(r *Rng, e *Emitter, n int) {
 	emit := func(a, b, c geom.Coord) {
 		in := fmt.Sprintf("(%s %s %s)", sxCoord(a), sxCoord(b), sxCoord(c))
 		a, b, c = slot(0, a...), slot(1, b...), slot(2, c...) // the caller's buffers are reused for every call
+		e.pending("C10.orient", in)
 		e.emit("C10.orient", in, guard(func() string {
 			return fmt.Sprintf("(%d %d %d)", int(bigxy.VerifOrientationIndexFilter(a, b, c)), int(bigxy.OrientationIndex(a, b, c)), int(xy.OrientationIndex(a, b, c)))
 		}))
